@@ -22,6 +22,14 @@ const HELPS: &[&str] = &[
     "ends with fence\n\n```\nlast\n```\n",
     "intro\n\n```text\nfenced line one\n\nfenced line three after an empty one\n```\n\nafter the fence",
     "two fences\n\n```\na\n\n\nb\n```\n\n```\nc\n```",
+    // built with the Doc API (`{{doc:X}}` becomes a nested document): several text tokens, a
+    // line break inside the first one, characters of more than one byte
+    "\u{e9}\nsecond line {{lit:x}} tail",
+    "\u{43f}\u{435}\u{440}\u{432}\u{430}\u{44f}\n\u{432}\u{442}\u{43e}\u{440}\u{430}\u{44f} {{lit:lit}} \u{445}\u{432}\u{43e}\u{441}\u{442}",
+    "one line {{doc:nested}} and more of it",
+    // one long line of multi-byte characters (a completion description may get shortened)
+    "\u{44f}\u{44f}\u{44f}\u{44f}\u{44f}\u{44f}\u{44f}\u{44f}\u{44f}\u{44f}\u{44f}\u{44f}\u{44f}\u{44f}\u{44f}\u{44f}\u{44f}\u{44f}\u{44f}\u{44f}\u{44f}\u{44f}\u{44f}\u{44f}\u{44f}\u{44f}\u{44f}\u{44f}\u{44f}\u{44f}\u{44f}\u{44f}\u{44f}\u{44f}\u{44f}\u{44f}\u{44f}\u{44f}\u{44f}\u{44f}\u{44f}\u{44f}\u{44f}\u{44f}\u{44f}\u{44f}\u{44f}\u{44f}\u{44f}\u{44f}\u{44f}\u{44f}\u{44f}\u{44f}\u{44f}\u{44f}\u{44f}\u{44f}\u{44f}\u{44f}",
+    "\u{65e5}\u{672c}\u{8a9e}\u{65e5}\u{672c}\u{8a9e}\u{65e5}\u{672c}\u{8a9e}\u{65e5}\u{672c}\u{8a9e}\u{65e5}\u{672c}\u{8a9e}\u{65e5}\u{672c}\u{8a9e}\u{65e5}\u{672c}\u{8a9e}\u{65e5}\u{672c}\u{8a9e}\u{65e5}\u{672c}\u{8a9e}\u{65e5}\u{672c}\u{8a9e}\u{65e5}\u{672c}\u{8a9e}\u{65e5}\u{672c}\u{8a9e}\u{65e5}\u{672c}\u{8a9e}\u{65e5}\u{672c}\u{8a9e} tail",
 ];
 
 fn opts() -> GenOpts {
